@@ -243,6 +243,7 @@ def merged_probe(idx, k):
     q['geometry'] = 'grid'      # x-ranges stay apart after merging (C12's known finding is not entangled)
     nt = q['n_templates']
     q.pop('unused_top', None)
+    q['template_dtype'] = ['float32', 'float64'][k % 2]     # probes sorted with different template precisions
     q.update(n_spikes=nt + 2, templates=[i % nt for i in range(nt + 2)],
              times=[3 * i + k for i in range(nt + 2)], amp_base=1.0 + 16 * k, fill=k)
     return q
